@@ -471,7 +471,8 @@ C13_lab(H) ==
                     /\ hops[k].ttl = ex.hops[k].ttl /\ hops[k].addr = ex.hops[k].addr
                     /\ (H.par.cli \/ hops[k].dest = ex.hops[k].dest)
                     /\ hops[k].rtt_us >= 0 /\ (hops[k].reach <=> hops[k].addr # "")
-              /\ out.runs[r].dst = ex.hops[Len(ex.hops)].addr
+              /\ (~H.par.skip => out.runs[r].dst = ex.hops[Len(ex.hops)].addr)
+         \* (the end-to-end sample is taken before redaction: positive also when every hop is redacted)
          /\ Len(out.rtts_us) = H.par.e2e /\ \A i \in DOMAIN out.rtts_us : out.rtts_us[i] > 0
 
 \* C20: TCP method policy (expect20 = TcpPolicy!Code for the scenario's method / capability / injected failure)
